@@ -10,10 +10,15 @@ RULE = ("every bidirectional type: value -> bytes -> value (op rtv: values built
         "obtained by decoding) must reproduce the bytes; the relying-party icon is the stated exception. Non-trivial = distinct (type, value)")
 ASSUMPTIONS = ["KnownPublicKeyCredentialParameters.alg is a public field: the round trip assumes the type's invariant alg in KNOWN_ALGS",
                "the relying-party icon is deliberately not re-emitted (stated exception of the property)"]
-TECHNIQUE = "Coq proof: set of bidirectional types computed from the regenerated derives equals the specification's; round-trip lemmas of the typed codec; differential round trips both ways"
-LEVEL_TEXT = ("Kernel-checked: the set of types deriving both directions (computed from the regenerated declarations) equals the specification's list and "
-              "their declarations equal the specification tables in both roles; string/number enumerations proved mutually inverse by computation; "
-              "head-level round-trip lemmas; differential run of value->bytes->value and bytes->value->bytes on the implementation against the model.")
+TECHNIQUE = "Coq proof: decode(encode v ++ rest) = (v, rest) for every well-typed value of every type in every well-formed declaration environment, by induction over the codec (records with any subset of optional members, sequences, options, enumerations, the cosey key, the filtered parameter list); well-formedness of the regenerated declarations is a kernel obligation; differential round trips both ways, with the share of generated values inside the theorem's domain measured"
+LEVEL_TEXT = ("Theorems (coq/Proofs/RoundTripP.v, Properties/C15.v): ser_dec_roundtrip / c15_decode_encode - for every environment e with env_rt e = true (boolean over the declarations: member keys "
+              "and labels pairwise distinct and in range, every text key resolves to its own member, string/number enumeration tables mutually inverse on what they emit), every type t and every value v "
+              "with wt e t v = true (capacities, integer ranges, UTF-8, any subset of optional members), decode e t (encode e t v ++ rest) = Ok (v, rest): unbounded sizes, nesting and member subsets. "
+              "Corollaries: bytes -> value -> bytes on canonical bytes reproduces them (c15_encode_decode); encodings are injective and prefix-free (c15_encode_injective: no member lost or renumbered in "
+              "one direction only). env_rt is evaluated by the kernel on the specification tables and on the declarations regenerated from /repo for all 32 feature sets on every run; the set of "
+              "bidirectional types and both roles of their declarations equal the specification. Outside the theorem's domain (reported in the evidence as outside-theorem-domain and covered by the "
+              "differential run only): Option<()> placeholders set to Some, decode-only and encode-only types. Differential run of value->bytes->value and bytes->value->bytes on the implementation "
+              "against the extracted model; the driver evaluates wt on every generated value.")
 feature_sets = default_feature_sets
 
 
@@ -91,4 +96,8 @@ def nontrivial(line, m):
 
 
 def classify(line, m):
-    return line.split(".")[1] + ":" + (m or "none").split(" ")[0]
+    c = line.split(".")[1] + ":" + (m or "none").split(" ")[0]
+    if m and " wt=" in m:
+        # whether the value lies in the domain of the round-trip theorem (wt evaluated by the extracted model)
+        c += ":in-theorem-domain" if m.endswith("wt=1") else ":outside-theorem-domain"
+    return c
